@@ -39,8 +39,8 @@ type zzConn struct {
 	readErr   bool
 }
 
-func (c *zzConn) Read(p []byte) (int, error)         { return 0, io.EOF }
-func (c *zzConn) Write(p []byte) (int, error)        { return len(p), nil }
+func (c *zzConn) Read(p []byte) (int, error)  { return 0, io.EOF }
+func (c *zzConn) Write(p []byte) (int, error) { return len(p), nil }
 func (c *zzConn) Close() error {
 	c.closed++
 	if c.closeCh != nil && c.closed == 1 {
@@ -145,24 +145,29 @@ type zzVerifier struct {
 	loginOK, pingOK, workOK bool
 	loginCalls, pingCalls   int
 	workCalls               int
+	// what the verifier was shown last
+	seenLoginUser, seenPingKey, seenWorkKey string
 }
 
-func (v *zzVerifier) VerifyLogin(*msg.Login) error {
+func (v *zzVerifier) VerifyLogin(m *msg.Login) error {
 	v.loginCalls++
+	v.seenLoginUser = m.User
 	if v.loginOK {
 		return nil
 	}
 	return errZZ
 }
-func (v *zzVerifier) VerifyPing(*msg.Ping) error {
+func (v *zzVerifier) VerifyPing(m *msg.Ping) error {
 	v.pingCalls++
+	v.seenPingKey = m.PrivilegeKey
 	if v.pingOK {
 		return nil
 	}
 	return errZZ
 }
-func (v *zzVerifier) VerifyNewWorkConn(*msg.NewWorkConn) error {
+func (v *zzVerifier) VerifyNewWorkConn(m *msg.NewWorkConn) error {
 	v.workCalls++
+	v.seenWorkKey = m.PrivilegeKey
 	if v.workOK {
 		return nil
 	}
@@ -177,13 +182,17 @@ type zzPlugin struct {
 	ops     map[string]bool
 	outcome int
 	calls   []string
-	tag     string // marks modified content
+	tag     string   // marks modified content
+	closed  []string // proxy names announced through CloseProxy notifications
 }
 
 func (p *zzPlugin) Name() string             { return p.name }
 func (p *zzPlugin) IsSupport(op string) bool { return p.ops[op] }
 func (p *zzPlugin) Handle(ctx context.Context, op string, content any) (*plugin.Response, any, error) {
 	p.calls = append(p.calls, op)
+	if c, ok := content.(plugin.CloseProxyContent); ok {
+		p.closed = append(p.closed, c.CloseProxy.ProxyName)
+	}
 	switch p.outcome {
 	case 3:
 		return nil, nil, errZZ
@@ -246,7 +255,6 @@ func zzNoPlugins() *plugin.Manager { return plugin.NewManager() }
 // stub for k8s validation.IsQualifiedName (regular expressions are not encoded)
 func zzStubIsQualifiedName(value string) []string { return nil }
 
-
 // locked accessors (the lock-discipline monitor also watches the harness)
 func zzCtlProxy(ctl *Control, name string) proxy.Proxy {
 	ctl.mu.RLock()
@@ -265,7 +273,6 @@ func zzSessions(svr *Service) int {
 	defer svr.ctlManager.mu.RUnlock()
 	return len(svr.ctlManager.ctlsByRunID)
 }
-
 
 func (c *zzConn) scriptFirst() msg.Message {
 	if c.first != nil {
